@@ -109,15 +109,18 @@ func parseLKeys(s string) []LKey {
 // ---------------------------------------------------------------- engine state (per case)
 type iterState struct {
 	it   statedb.ChangeIterator[*Obj]
+	id   int
 	tab  int
 	next func() (statedb.Change[*Obj], statedb.Revision, bool)
 	stop func()
 	// oracle state (C07)
-	replay   map[string]string // pk -> "val@rev"
-	lastRev  uint64
-	created  uint64 // table revision in the creating txn
-	complete bool   // last sequence ran to completion
-	lastSnap string // dump of the snapshot passed to the last refreshing Next
+	replay      map[string]string // pk -> "val@rev"
+	lastRev     uint64
+	created     uint64 // table revision in the creating txn
+	complete    bool   // last sequence ran to completion
+	lastSnap    string // dump of the snapshot passed to the last refreshing Next
+	registered  bool   // the creating transaction has committed
+	caughtUpSeq int    // commitSeq at which a Next on a fresh snapshot last ran to completion (-1: never)
 }
 
 // a retained watch channel of a query (C06 oracle)
@@ -155,6 +158,22 @@ type eng struct {
 	ref *refDB // independent reference (spec-level oracle)
 
 	watches []*watchRec
+
+	// C08 oracles (independent of the model)
+	tombs     []*tomb           // deletions committed while iterators were open and not yet handed to all of them
+	gcScanSeq int               // event counter value at the last gcscan that found the collector at its gate
+	events    int               // counts commits, marks and closes (anything that can change what is collectable)
+	gcCleanAt int               // events value for which a complete scan+apply has run (-1: none)
+	gcIdleAt  int               // events value at which the collector was observed idle with no pending trigger (-1: none)
+	commitSeq int               // number of user commits so far
+	lastLive  []map[string]bool // live primary keys per table at the last commit
+}
+
+// tomb: a committed deletion that some open iterators have not been handed yet
+type tomb struct {
+	tab     int
+	pk      string
+	waiting map[int]bool // iterator ids
 }
 
 var cur atomic.Pointer[eng]
@@ -192,6 +211,9 @@ func (e *eng) Case(id string) {
 	e.initW = map[int]<-chan struct{}{}
 	e.gate1 = make(chan struct{})
 	e.gate2 = make(chan struct{})
+	e.gcCleanAt = -1
+	e.gcIdleAt = -1
+	e.lastLive = []map[string]bool{{}, {}}
 	e.gcAt.Store("idle")
 	for i := 0; i < 2; i++ {
 		t, err := statedb.NewTable(e.db, fmt.Sprintf("t%d", i), idIndex, uIndex, nIndex, luIndex, lnIndex)
@@ -341,6 +363,81 @@ func (e *eng) snapshotsFrozen() string {
 
 func (e *eng) settleGC() { synctest.Wait() }
 
+// livePKs of table tab in a fresh snapshot
+func (e *eng) livePKs(tab int) map[string]bool {
+	m := map[string]bool{}
+	for o := range e.tabs[tab].All(e.db.ReadTxn()) {
+		m[string(o.ID)] = true
+	}
+	return m
+}
+
+// afterCommit maintains the tombstone bookkeeping: objects that disappeared while iterators are registered
+// must be retained until each of those iterators has been handed the deletion; a key that is live again
+// supersedes its tombstone.
+func (e *eng) afterCommit() {
+	e.events++
+	e.commitSeq++
+	for tab := range e.tabs {
+		now := e.livePKs(tab)
+		for pk := range e.lastLive[tab] {
+			if !now[pk] {
+				w := map[int]bool{}
+				for iid, is := range e.iters {
+					if is.tab == tab && is.registered {
+						w[iid] = true
+					}
+				}
+				if len(w) > 0 {
+					e.tombs = append(e.tombs, &tomb{tab: tab, pk: pk, waiting: w})
+				}
+			}
+		}
+		var keep []*tomb
+		for _, t := range e.tombs {
+			if t.tab == tab && now[t.pk] {
+				continue // re-inserted
+			}
+			keep = append(keep, t)
+		}
+		e.tombs = keep
+		e.lastLive[tab] = now
+	}
+	for _, is := range e.iters {
+		is.registered = true // iterators created in the transaction that just committed are registered now
+	}
+}
+
+// c08Oracle: (lower bound) every tombstone still awaited by an open iterator is in the graveyard;
+// (upper bound) when a complete collection ran after the last event and nobody awaits anything, it is empty.
+func (e *eng) c08Oracle() string {
+	for tab, t := range e.tabs {
+		n := statedb.VerifGraveyardLen(e.db.ReadTxn(), t)
+		need := 0
+		for _, tb := range e.tombs {
+			if tb.tab == tab && len(tb.waiting) > 0 {
+				need++
+			}
+		}
+		if n < need {
+			return fmt.Sprintf(" !BAD:C08:dropped-before-handed(t%d:have%d,need%d)", tab, n, need)
+		}
+		// every open iterator on the table has consumed a fresh snapshot of the current state to completion
+		// (or there is none), and the collector has completed a run or is idle with nothing pending since:
+		// nothing may be retained
+		allCaughtUp := true
+		for _, is := range e.iters {
+			if is.tab == tab && is.caughtUpSeq != e.commitSeq {
+				allCaughtUp = false
+			}
+		}
+		if allCaughtUp && (e.gcCleanAt == e.events || e.gcIdleAt == e.events) && n != 0 {
+			return fmt.Sprintf(" !BAD:C08:not-collected-although-all-caught-up(t%d:%d)", tab, n)
+		}
+	}
+	return ""
+}
+
 // runQuery evaluates the query words q (as in a `q` op, without source and table) on txn
 func (e *eng) runQuery(txn statedb.ReadTxn, tab int, q []string) (res string, watch <-chan struct{}) {
 	t := e.tabs[tab]
@@ -413,6 +510,9 @@ func (e *eng) watchOracle(event string) string {
 func (e *eng) Op(f []string, line string, out *hx.Out) {
 	bad := ""
 	emit := func(tag, format string, a ...any) {
+		if bad == "" && e.wtxn == nil {
+			bad = e.c08Oracle()
+		}
 		out.P("%s %s%s%s", tag, fmt.Sprintf(format, a...), bad, e.snapshotsFrozen())
 	}
 	switch f[0] {
@@ -526,6 +626,7 @@ func (e *eng) Op(f []string, line string, out *hx.Out) {
 		if b := e.refCheckAll(rtxn, "C02:commit-state"); b != "" {
 			bad = b
 		}
+		e.afterCommit()
 		e.settleGC()
 		if b := e.watchOracle("commit"); b != "" {
 			bad = b
@@ -655,7 +756,7 @@ func (e *eng) Op(f []string, line string, out *hx.Out) {
 		}
 		it, err := e.tabs[tab].Changes(e.wtxn)
 		if err == nil {
-			e.iters[iid] = &iterState{it: it, tab: tab, replay: map[string]string{}, created: e.tabs[tab].Revision(e.wtxn)}
+			e.iters[iid] = &iterState{it: it, id: iid, tab: tab, caughtUpSeq: -1, replay: map[string]string{}, created: e.tabs[tab].Revision(e.wtxn)}
 			// the iterator observes the objects existing at creation through its first Next
 		}
 		emit("M:C07,C08", "err=%s", errS(err))
@@ -683,6 +784,12 @@ func (e *eng) Op(f []string, line string, out *hx.Out) {
 		}
 		if closed && done {
 			e.checkConverged(is, &bad)
+		}
+		if done && f[2] == "fresh" && e.wtxn == nil {
+			is.caughtUpSeq = e.commitSeq
+		}
+		if !closed && f[2] == "fresh" && e.wtxn == nil && is.complete {
+			is.caughtUpSeq = e.commitSeq // idle: nothing new since the last complete consumption
 		}
 		emit("M:C07,C08", "[%s] wclosed=%s", strings.Join(delivered, " "), b2s(closed))
 	case "resume":
@@ -713,6 +820,10 @@ func (e *eng) Op(f []string, line string, out *hx.Out) {
 		}
 		is.it.Close()
 		delete(e.iters, iid)
+		e.events++
+		for _, tb := range e.tombs {
+			delete(tb.waiting, iid)
+		}
 		e.ref.closeIter(is.tab)
 		e.settleGC()
 		emit("M:C07,C08", "ok")
@@ -720,10 +831,14 @@ func (e *eng) Op(f []string, line string, out *hx.Out) {
 		time.Sleep(10 * time.Millisecond)
 		synctest.Wait()
 		if e.gcAt.Load() == "gate1" {
+			e.gcScanSeq = e.events
 			e.gate1 <- struct{}{}
 			synctest.Wait()
 			emit("M:C08", "1")
 		} else {
+			if e.gcAt.Load() == "idle" {
+				e.gcIdleAt = e.events
+			}
 			emit("M:C08", "0")
 		}
 	case "gcapply":
@@ -731,11 +846,8 @@ func (e *eng) Op(f []string, line string, out *hx.Out) {
 			e.gate2 <- struct{}{}
 			time.Sleep(10 * time.Millisecond)
 			synctest.Wait()
-			// C08 oracle: with no open iterator nothing is retained after a complete run
-			for i, t := range e.tabs {
-				if len(e.itersOn(i)) == 0 && statedb.VerifGraveyardLen(e.db.ReadTxn(), t) != 0 {
-					bad = " !BAD:C08:retained-without-iterator"
-				}
+			if e.gcScanSeq == e.events {
+				e.gcCleanAt = e.events // a complete run whose scan saw everything that has happened so far
 			}
 			emit("M:C08", "1")
 		} else {
@@ -861,6 +973,12 @@ func (e *eng) consume(is *iterState, take string, bad *string) (delivered []stri
 		}
 		pk := string(ch.Object.ID)
 		if ch.Deleted {
+			e.events++
+			for _, tb := range e.tombs {
+				if tb.tab == is.tab && tb.pk == pk {
+					delete(tb.waiting, is.id)
+				}
+			}
 			delete(is.replay, pk)
 			delivered = append(delivered, objS(ch.Object, rev)+"-")
 			e.settleGC() // dt.mark ran just before this element was yielded
